@@ -1,1 +1,172 @@
-fn main() { println!("hello"); }
+use serde_json::json;
+use std::io::Write;
+use vmv::engine::*;
+
+fn usage() -> ! {
+    eprintln!("usage: vmv list | run --prop ID --tier quick|thorough [--seed N] [--shard i/n] [--out F] [--keys F] [--tapefile F] [--known a,b] [--only SUB] [--scale X] [--replay-dir D] | replay FILE [--known a,b] | replay-tapefile FILE --prop ID | merge-keys F...");
+    std::process::exit(2)
+}
+
+fn arg_val(args: &[String], name: &str) -> Option<String> {
+    args.iter().position(|a| a == name).and_then(|i| args.get(i + 1).cloned())
+}
+
+fn main() {
+    let args: Vec<String> = std::env::args().collect();
+    if args.len() < 2 {
+        usage();
+    }
+    install_panic_hook();
+    let props = vmv::properties();
+    let known: Vec<String> = arg_val(&args, "--known")
+        .map(|s| s.split(',').filter(|x| !x.is_empty()).map(|x| x.to_string()).collect())
+        .unwrap_or_default();
+    match args[1].as_str() {
+        "list" => {
+            let v: Vec<_> = props
+                .iter()
+                .map(|p| {
+                    json!({"id": p.id, "rule": p.rule, "assumptions": p.assumptions,
+                      "subchecks": p.subchecks.iter().map(|s| json!({
+                        "name": s.name,
+                        "builds": s.builds.iter().map(|b| b.name()).collect::<Vec<_>>(),
+                        "exhaustive": matches!(s.kind, Kind::Exhaustive{..}),
+                      })).collect::<Vec<_>>()})
+                })
+                .collect();
+            println!("{}", serde_json::to_string_pretty(&v).unwrap());
+        }
+        "run" => {
+            let id = arg_val(&args, "--prop").unwrap_or_else(|| usage());
+            let prop = props.iter().find(|p| p.id == id).unwrap_or_else(|| {
+                eprintln!("unknown property {}", id);
+                std::process::exit(2)
+            });
+            let tier = match arg_val(&args, "--tier").as_deref() {
+                Some("thorough") => Tier::Thorough,
+                _ => Tier::Quick,
+            };
+            let seed = arg_val(&args, "--seed").and_then(|s| s.parse().ok()).unwrap_or(0u64);
+            let (shard, nshards) = arg_val(&args, "--shard")
+                .map(|s| {
+                    let mut it = s.split('/');
+                    (it.next().unwrap().parse().unwrap(), it.next().unwrap().parse().unwrap())
+                })
+                .unwrap_or((0u32, 1u32));
+            let opts = RunOpts {
+                tier,
+                seed,
+                shard,
+                nshards,
+                known,
+                only: arg_val(&args, "--only"),
+                tapefile: arg_val(&args, "--tapefile").and_then(|p| TapeFile::open(&p)),
+                replay_dir: arg_val(&args, "--replay-dir").unwrap_or_else(|| "/verif/replays".into()),
+                scale: arg_val(&args, "--scale").and_then(|s| s.parse().ok()).unwrap_or(1.0),
+            };
+            let t0 = std::time::Instant::now();
+            let (mut out, failures, keys) = run_property(prop, &opts);
+            out["wall_s"] = json!(t0.elapsed().as_secs_f64());
+            if let Some(kf) = arg_val(&args, "--keys") {
+                let mut f = std::fs::File::create(kf).unwrap();
+                let mut buf = Vec::with_capacity(keys.len() * 8);
+                for k in &keys {
+                    buf.extend_from_slice(&k.to_le_bytes());
+                }
+                f.write_all(&buf).unwrap();
+            }
+            let s = serde_json::to_string_pretty(&out).unwrap();
+            if let Some(of) = arg_val(&args, "--out") {
+                std::fs::write(of, &s).unwrap();
+            } else {
+                println!("{}", s);
+            }
+            for f in &failures {
+                println!("FAILURE property={} subcheck={} replay={}", prop.id, f.subcheck, f.replay_path);
+                for l in f.message.lines().take(12) {
+                    println!("  {}", l);
+                }
+            }
+            std::process::exit(if failures.is_empty() { 0 } else { 1 });
+        }
+        "replay" => {
+            let path = args.get(2).cloned().unwrap_or_else(|| usage());
+            let rf = match read_replay(&path) {
+                Ok(r) => r,
+                Err(e) => {
+                    eprintln!("{}", e);
+                    std::process::exit(2)
+                }
+            };
+            if rf.build != current_build().name() && !args.iter().any(|a| a == "--any-build") {
+                eprintln!("replay file is for build '{}', this binary is '{}'", rf.build, current_build().name());
+                std::process::exit(3);
+            }
+            let prop = props.iter().find(|p| p.id == rf.prop).unwrap_or_else(|| {
+                eprintln!("unknown property {}", rf.prop);
+                std::process::exit(2)
+            });
+            let sc = prop.subchecks.iter().find(|s| s.name == rf.sub).unwrap_or_else(|| {
+                eprintln!("unknown subcheck {}", rf.sub);
+                std::process::exit(2)
+            });
+            let tf = arg_val(&args, "--tapefile").and_then(|p| TapeFile::open(&p));
+            if let Some(tf) = &tf {
+                tf.record(0, rf.raw, &rf.words);
+            }
+            let (r, cx, _) = exec_once(sc.run, &rf.words, rf.raw, true, &known, Tier::Quick);
+            for l in cx.desc.split("; ") {
+                if !l.is_empty() {
+                    println!("case: {}", l);
+                }
+            }
+            match r {
+                Ok(()) => {
+                    println!("PASS property={} subcheck={}", rf.prop, rf.sub);
+                }
+                Err(m) => {
+                    println!("{}", m);
+                    println!("VIOLATION property={} replay={}", rf.prop, path);
+                    std::process::exit(1);
+                }
+            }
+        }
+        "dump-tapefile" => {
+            // print the tape recorded in a tapefile as a replay file on stdout
+            let path = args.get(2).cloned().unwrap_or_else(|| usage());
+            let id = arg_val(&args, "--prop").unwrap_or_else(|| usage());
+            let prop = props.iter().find(|p| p.id == id).unwrap();
+            let data = std::fs::read(&path).unwrap();
+            let w = |i: usize| u64::from_le_bytes(data[i * 8..i * 8 + 8].try_into().unwrap());
+            if data.len() < 32 || w(0) != 0x7a9e_7a9e {
+                eprintln!("no tape recorded");
+                std::process::exit(4);
+            }
+            let sub = w(1) as usize;
+            let raw = w(2) != 0;
+            let n = w(3) as usize;
+            println!("property {}", id);
+            println!("subcheck {}", prop.subchecks[sub].name);
+            println!("build {}", current_build().name());
+            println!("mode {}", if raw { "raw" } else { "random" });
+            println!("words {}", n);
+            for i in 0..n {
+                println!("{:#018x}", w(4 + i));
+            }
+        }
+        "merge-keys" => {
+            let mut all: Vec<u64> = Vec::new();
+            for f in &args[2..] {
+                if let Ok(d) = std::fs::read(f) {
+                    for c in d.chunks_exact(8) {
+                        all.push(u64::from_le_bytes(c.try_into().unwrap()));
+                    }
+                }
+            }
+            all.sort_unstable();
+            all.dedup();
+            println!("{}", all.len());
+        }
+        _ => usage(),
+    }
+}
